@@ -62,12 +62,18 @@ def cell_palette(rng: random.Random, n_search: int = 3, per_search: int = 4, res
     for sc in ring[:n_search]:
         lat, lon = h3.h3_to_geo(sc)
         seen = set()
+        if res - search_res <= 4:
+            # a small search cell: random points would mostly miss it, pick among its cells directly
+            children = sorted(h3.h3_to_children(sc, res))
+            seen = set(rng.sample(children, min(per_search, len(children))))
         tries = 0
         while len(seen) < per_search and tries < 200:
             tries += 1
             c = h3.geo_to_h3(lat + rng.uniform(-0.0008, 0.0008), lon + rng.uniform(-0.0008, 0.0008), res)
             if h3.h3_to_parent(c, search_res) == sc:
                 seen.add(c)
+        if not seen:
+            seen.add(h3.h3_to_center_child(sc, res))
         cells.extend(sorted(seen))
     return cells
 
